@@ -16,11 +16,12 @@ import (
 )
 
 type serTape struct {
-	name  string
-	pj    *simdjson.ParsedJson
-	docs  []*ref.Node
-	exact string
-	big   bool
+	corrupt bool // Serialize is expected to panic on it (unknown tag); nothing may stick to the Serializer
+	name    string
+	pj      *simdjson.ParsedJson
+	docs    []*ref.Node
+	exact   string
+	big     bool
 }
 
 func mustParse(w *W, text string, nd bool, c Cfg) (*simdjson.ParsedJson, []*ref.Node) {
@@ -129,6 +130,13 @@ func c11Tapes(w *W) []*serTape {
 	add("collide-long", pj, docs, false)
 	pj, docs = mustParse(w, fmt.Sprintf(`["pad",%q,%q,%q,%q,%q]`, t1, s1, p1, q1, p1), false, cp)
 	add("collide-prefix-then-long", pj, docs, false)
+	pj, docs = mustParse(w, fmt.Sprintf(`["pad",%q,%q]`, t1, s1), false, cp)
+	add("collide-prefix-long-last", pj, docs, false)
+	// a tape a caller corrupted by hand: Serialize panics on the unknown tag
+	pj, docs = mustParse(w, `[1,"two",3]`, false, cp)
+	pj.Tape[2] = uint64('X') << 56
+	add("corrupt-unknown-tag", pj, docs, false)
+	ts[len(ts)-1].corrupt = true
 	// big tapes
 	pj, docs = mustParse(w, "["+strings.Repeat("null,", 70000)+"true]", false, cp)
 	add("70k-tags", pj, docs, true)
@@ -154,6 +162,26 @@ func c11Tapes(w *W) []*serTape {
 	sb.WriteString("]")
 	pj, docs = mustParse(w, sb.String(), false, cp)
 	add("4k-strings", pj, docs, true)
+	// three tag blocks / three value blocks / a deleted gap longer than one tag block
+	pj, docs = mustParse(w, "["+strings.Repeat("null,", 140000)+"true]", false, cp)
+	add("140k-tags", pj, docs, true)
+	sb.Reset()
+	sb.WriteByte('[')
+	for i := 0; i < 20000; i++ {
+		fmt.Fprintf(&sb, "%d,", i*104729-7)
+	}
+	sb.WriteString("0.5]")
+	pj, docs = mustParse(w, sb.String(), false, cp)
+	add("20k-values", pj, docs, true)
+	sb.Reset()
+	sb.WriteString("[[")
+	for i := 0; i < 40000; i++ {
+		fmt.Fprintf(&sb, "%d,", i)
+	}
+	sb.WriteString(`0],"after the gap",2]`)
+	pj, docs = mustParse(w, sb.String(), false, cp)
+	docs = applyOps(w, pj, docs, []editOp{{kind: opArrDelete, p: vpath{0}, route: 0, subset: 0b1}})
+	add("80k-tag-gap", pj, docs, true)
 	pj, docs = mustParse(w, "["+strings.Repeat(`{"k":[1,"v"]},`, 200)+"0]", false, cp)
 	docs = applyOps(w, pj, docs, []editOp{{kind: opArrDelete, p: vpath{0}, route: 0, subset: 0b10110}})
 	add("200-objects-deleted", pj, docs, true)
@@ -203,6 +231,10 @@ func runSerHistory(ts []*serTape, blobs []blob, hist []serOp, collect *[]blobRec
 		switch o.Kind {
 		case 0:
 			b, p := serialize(s, ts[o.A].pj)
+			if ts[o.A].corrupt {
+				// a failing call: it may panic, but must leave the Serializer usable
+				continue
+			}
 			if p != "" {
 				return fmt.Sprintf("op %d Serialize panicked: %s", i, p), "serialize-panic"
 			}
@@ -295,6 +327,9 @@ func c11Body(w *W) {
 		for m := 0; m < 4; m++ {
 			s := simdjson.NewSerializer()
 			s.CompressMode(simdjson.CompressMode(m))
+			if t.corrupt {
+				continue
+			}
 			b, p := serialize(s, t.pj)
 			if p != "" {
 				w.Violate(Violation{Harness: "C11-premade", Fingerprint: "C11/serialize-panic", What: "Serialize panicked on tape " + t.name + ": " + p, Case: []byte(t.name), Config: modeNames[m]})
@@ -306,7 +341,12 @@ func c11Body(w *W) {
 	}
 	// alphabet
 	var small []int
+	corruptIdx := -1
 	for i, t := range ts {
+		if t.corrupt {
+			corruptIdx = i
+			continue // not part of the history alphabet: every panicking Serialize leaks its pooled coders
+		}
 		if !t.big {
 			small = append(small, i)
 		}
@@ -378,8 +418,30 @@ func c11Body(w *W) {
 		}
 	}
 	rec(0)
+	// a failing Serialize in the middle: Mode(m); Serialize(a); Serialize(corrupt tape, panics);
+	// Serialize(b); Deserialize(last) - the Serializer must behave like a fresh one afterwards
+	if corruptIdx >= 0 {
+		w.Note("failed call in the middle: Mode(m); Serialize(a); Serialize(tape with an unknown tag: panics); Serialize(b); Deserialize(last blob) for all small tapes a, b and the 4 modes")
+		for m := 0; m < 4; m++ {
+			for _, a := range small {
+				for _, b := range small {
+					w.res.States++
+					if !w.Mine() || w.Expired() {
+						continue
+					}
+					h := []serOp{{Kind: 1, A: m}, {Kind: 0, A: a}, {Kind: 0, A: corruptIdx}, {Kind: 0, A: b}, {Kind: 2, A: -1, Dst: 1}}
+					w.res.Transitions += int64(len(h))
+					w.res.Evaluations++
+					w.res.Validated++
+					if what, fp := runSerHistory(ts, blobs, h, nil); what != "" {
+						report(h, what, fp)
+					}
+				}
+			}
+		}
+	}
 	// big tapes: all histories of the shape Mode(a); Serialize(big); Mode(b); Deserialize(last, dst)
-	w.Note("big tapes (70000 tags, 9000 values, 4000+ strings with colliding hash buckets and repeats, 200 objects with deletions): every Mode(a); Serialize; Mode(b); Deserialize(last) for a,b in 4 modes x dst in {nil, reused}; plus Serialize(small) before, to exercise leftovers in the reused scratch buffers")
+	w.Note("big tapes (70000 and 140000 tags, 9000 and 20000 values, a deleted gap of 80000 tags, 4000+ strings with colliding hash buckets and repeats, 200 objects with deletions): every Mode(a); Serialize; Mode(b); Deserialize(last) for a,b in 4 modes x dst in {nil, reused}; plus Serialize(small) before, to exercise leftovers in the reused scratch buffers")
 	for ti, t := range ts {
 		if !t.big {
 			continue
